@@ -3,7 +3,7 @@ import ast
 
 from rules import commits, tables
 from sa.deps import Facts, names_in, pseudo
-from sa.loader import AnalysisError, own_nodes
+from sa.loader import AnalysisError, FuncInfo, own_nodes
 from sa.model import u, where
 
 WRITE_OPENERS = {'builtins.open', 'io.open', 'codecs.open'}
@@ -29,19 +29,33 @@ def check(ctx):
     run.check(all(isinstance(s, str) and len(s) > 0 for s in suffix) and len(suffix) == 1, 'TMP', 'dataflows/processors/stream.py',
               'dataflows.processors.stream:<module>', 'ACTIVE_SUFFIX = %r' % sorted(suffix),
               'the temporary-name suffix is empty: the checkpoint is written directly under its final name')
-    st = repo.func('dataflows.processors.stream:stream')
+    st0 = repo.func('dataflows.processors.stream:stream')
+    st = ctx.N(st0)          # a helper that opens the temp file (`_open_active(target)`) is part of the factory
+    inlined = {h for _c, h in getattr(st, 'inlined', [])}
     facts = Facts(st, include_nested=True)
     param = st.params[0]
     opens, moves = [], []
+
+    def note(m, n):
+        en = res.external_name(n)
+        if en in WRITE_OPENERS:
+            opens.append((m, n))
+        if en in MOVERS:
+            moves.append((m, n, en))
+    for n in ast.walk(st.node):
+        if isinstance(n, ast.Call):
+            note(st0.module, n)
     for modname in ('dataflows.processors.stream', 'dataflows.processors.checkpoint', 'dataflows.processors.unstream'):
         m = repo.module(modname)
         for n in ast.walk(m.tree):
             if isinstance(n, ast.Call):
-                en = res.external_name(n)
-                if en in WRITE_OPENERS:
-                    opens.append((m, n))
-                if en in MOVERS:
-                    moves.append((m, n, en))
+                ef = repo.enclosing_func(n)
+                top = ef
+                while top is not None and isinstance(getattr(top, 'parent', None), FuncInfo):
+                    top = top.parent
+                if top is st0 or (ef is not None and ef.qualname in inlined):
+                    continue        # seen through the normalised factory
+                note(m, n)
     w_opens = [(m, n) for m, n in opens if any(c in _mode(n) for c in 'wax+')]
     run.check(len(w_opens) == 1 and w_opens[0][0].name == 'dataflows.processors.stream', 'TMP', 'dataflows/processors/stream.py',
               st.qualname, 'exactly one open(..., "w")', 'unexpected number of files opened for writing: %s'
@@ -63,15 +77,35 @@ def check(ctx):
                   'the file opened for writing is not <final name> + ACTIVE_SUFFIX')
     run.check(len(moves) == 1 and moves[0][2] in ('os.rename', 'os.replace'), 'TMP', 'dataflows/processors/stream.py', st.qualname,
               'exactly one rename', 'files are moved/copied in %d places: %s' % (len(moves), [where(repo, n) for _, n, _ in moves]))
+    def root_name(nm):
+        """follow plain copies  a = b  and  (a, c) = (b, d)  back to the name the value was first bound to"""
+        for _ in range(4):
+            srcs = []
+            for a_ in ast.walk(st.node):
+                if isinstance(a_, ast.Assign) and len(a_.targets) == 1:
+                    t_ = a_.targets[0]
+                    if pseudo(t_) == nm and not (isinstance(a_.value, ast.Constant) and a_.value.value is None):
+                        srcs.append(a_.value)
+                    elif isinstance(t_, (ast.Tuple, ast.List)) and isinstance(a_.value, (ast.Tuple, ast.List)) and \
+                            len(t_.elts) == len(a_.value.elts):
+                        for x_, y_ in zip(t_.elts, a_.value.elts):
+                            if pseudo(x_) == nm:
+                                srcs.append(y_)
+            if len(srcs) == 1 and isinstance(srcs[0], ast.Name):
+                nm = srcs[0].id
+            else:
+                break
+        return nm
+    tmpname = root_name(tmpname) if tmpname else tmpname
     for m, n, en in moves:
         if len(n.args) != 2:
             run.fail('TMP', where(repo, n), st.qualname, n, 'rename with unexpected arguments')
             continue
         src, dst = n.args
-        ok = pseudo(src) == tmpname and tmpname is not None
+        ok = pseudo(src) is not None and root_name(pseudo(src)) == tmpname and tmpname is not None
         # dst = src[:-len(ACTIVE_SUFFIX)]  or the original final name parameter before it was rebound
         okd = False
-        if isinstance(dst, ast.Subscript) and pseudo(dst.value) == tmpname and isinstance(dst.slice, ast.Slice) \
+        if isinstance(dst, ast.Subscript) and pseudo(dst.value) and root_name(pseudo(dst.value)) == tmpname and isinstance(dst.slice, ast.Slice) \
                 and dst.slice.lower is None and dst.slice.upper is not None and u(dst.slice.upper) == '-len(ACTIVE_SUFFIX)':
             okd = True
         # or: the very name the temp name was built from (<final> + ACTIVE_SUFFIX), kept in a variable that is not rebound later
